@@ -302,6 +302,13 @@ func main() {
 	run.Set("functions", len(funcs))
 	perCfg := run.Pick(400, 8000)
 	var seq atomic.Int64
+	type quietWorld struct {
+		name string
+		w    *vworld.World
+		tap  *netlab.Tap
+	}
+	var quiet []quietWorld
+	backWorldOf := map[string]*vworld.World{}
 	for ci, cfg := range configs {
 		app := tars.VerifNewApp()
 		flog := &filterLog{}
@@ -338,6 +345,7 @@ func main() {
 				continue
 			}
 			backWorld = back
+			backWorldOf[cfg.Name] = back
 			w.Servant.Forward = func(ctx context.Context, token string) {
 				// the front implementation passes its own context on and names no status of its own
 				_ = back.Proxy.NothingWithContext(ctx, map[string]string{vworld.TokenKey: "fwd-" + token})
@@ -381,7 +389,32 @@ func main() {
 				break
 			}
 		}
-		tap.Close()
+		quiet = append(quiet, quietWorld{cfg.Name, w, tap})
+	}
+	// ---- nothing is delivered again later: the connections stay open and silent for 2.3 s (the
+	// client's once-per-second housekeeping runs twice); every call's records were dropped when it
+	// was judged, so anything recorded now is a late, additional execution ----
+	time.Sleep(2300 * time.Millisecond)
+	for _, q := range quiet {
+		run.Eval(1)
+		left := q.w.Servant.Leftover()
+		if backWorldOf[q.name] != nil {
+			for k, v := range backWorldOf[q.name].Servant.Leftover() {
+				left[k] = v
+			}
+		}
+		if len(left) > 0 {
+			var ex []string
+			for k, v := range left {
+				ex = append(ex, fmt.Sprintf("%s x%d", k, v))
+				if len(ex) >= 5 {
+					break
+				}
+			}
+			run.Violation("not-executed-exactly-once", "delivered-again-later", fmt.Sprintf("configuration %s: %d calls were executed again while their connection sat idle after the last call (e.g. %s)", q.name, len(left), strings.Join(ex, ", ")),
+				map[string]interface{}{"config": q.name, "late_executions": left})
+		}
+		q.tap.Close()
 	}
 	run.Finish()
 }
